@@ -213,8 +213,9 @@ impl DocParams {
     /// namespace-heavy pool (C05)
     pub fn namespaces() -> Self {
         DocParams {
-            names: vec!["a", "b", "p:a", "q:a", "p:b", "q:b", "xml:a", "r:a", "i:a"],
-            attr_keys: vec!["k", "j", "p:k", "q:k", "xml:lang", "i:nil", "p:nil", "r:k", "nil"],
+            // the long prefixes have the same length and the same first eight bytes
+            names: vec!["a", "b", "p:a", "q:a", "p:b", "q:b", "xml:a", "r:a", "i:a", "a", "p:a", "q:b", "namespace1:a", "namespace2:a", "soapenv11:b", "soapenv12:a"],
+            attr_keys: vec!["k", "j", "p:k", "q:k", "xml:lang", "i:nil", "p:nil", "r:k", "nil", "k", "p:k", "i:nil", "namespace1:k", "namespace2:nil", "soapenv12:k"],
             attr_values: vec!["v", "", "true", "false", "1", "0", "x y"],
             ns_decls: vec![
                 ("xmlns", "u1"),
@@ -230,6 +231,15 @@ impl DocParams {
                 ("xmlns:p", XSI),
                 ("xmlns:i", "u1"),
                 ("xmlns:xml", XML_NS),
+                ("xmlns", "u1"),
+                ("xmlns:p", "u2"),
+                ("xmlns:q", ""),
+                ("xmlns:namespace1", "u1"),
+                ("xmlns:namespace2", "u2"),
+                ("xmlns:namespace1", ""),
+                ("xmlns:namespace2", XSI),
+                ("xmlns:soapenv11", "u3"),
+                ("xmlns:soapenv12", "u1"),
             ],
             max_depth: 5,
             max_children: 4,
